@@ -516,8 +516,14 @@ def divide_outputs(
                     mailboxes[d].send(result[d])
             except Exception as e:
                 # Inform the source we're going down
-                source.throw(e)
-                raise
+                try:
+                    source.throw(e)
+                except StopIteration:
+                    # The source (a mailbox reader) took note of a
+                    # MailboxKilled and had nothing left to yield. This is
+                    # not the failure to report.
+                    pass
+                raise e
             i += 1
 
         # Source exhausted: close all outputs. This is inside the try block,
